@@ -25,11 +25,11 @@ from io import BytesIO
 import pyarrow as pa
 from pyarrow import ipc
 
-from engine.api import QUICK, REPO, HarnessModelError, cond, pick
+from engine.api import HarnessModelError, cond, pick
 from engine.reglob import reglobalize
 
 from vgi_rpc import metadata as md
-from vgi_rpc.log import Level, Message
+from vgi_rpc.log import Level
 from vgi_rpc.rpc import _server as srv
 from vgi_rpc.rpc import _types as ty
 from vgi_rpc.rpc import _wire as wire
@@ -44,6 +44,25 @@ ENCODED = [
     ty.OutputCollector.emit_client_log_message,
     ty.OutputCollector.client_log,
     wire._flush_collector,
+]
+
+BOUNDS = (
+    "collector: every op script of length <= %d (quick 4 / thorough 5) over 5 ops, both modes; "
+    "socket loop: every producer step script <= 4 steps (5 kinds quick, 6 thorough) and every exchange response script "
+    "<= %d steps (quick 3 / thorough 4), 0..n inputs followed by EOS or a cancel batch, on_cancel raising or not; "
+    "HTTP cancel branch: all 32 combinations of its five boolean inputs. pyarrow objects are concrete."
+) % (pick(4, 5), pick(3, 4))
+OUTSIDE = (
+    "_coerce_input_batch (Arrow select/cast: inputs here already have the declared schema); stream headers; "
+    "HTTP producer/exchange turn runners (stubbed in (c): only the branch selection is decided); "
+    "client session objects (StreamSession/HttpStreamSession) refusing use after cancel — exercised only in the (c) replay; "
+    "lock-step interleaving of client and server (requests are pre-buffered in memory); shm / external-location routes; "
+    "scripts longer than the bound."
+)
+ASSUMPTIONS = [
+    "the producer/exchange state is a harness class whose process() follows the symbolic script; batches are 8 fixed 1-row int64 batches",
+    "in (b) the request stream is fully buffered before the server loop starts (BytesIO), so back-pressure/blocking is not modelled",
+    "in (c) the cursor token opens to the minted state (ideal AEAD) and the two turn runners are the only code that calls state.process",
 ]
 
 _SCHEMA = pa.schema([pa.field("v", pa.int64())])
@@ -307,7 +326,29 @@ def _client_parse(raw: bytes):  # type: ignore[no-untyped-def]
     return data, logs, err, trailing
 
 
-def _serve_script(exchange: bool, t: int, cancel: bool, cancel_raises: bool, script: tuple) -> bool:
+class _Clock:
+    """time := a concrete counter (the loop only uses it for access-log durations).
+
+    CrossHair models ``time.monotonic()`` as a fresh symbolic float per call and discards
+    every path on which two reads are not ordered; 4 of 5 full runs of the loop were thrown
+    away that way."""
+
+    def __init__(self) -> None:
+        self.now = 0
+
+    def monotonic(self) -> int:
+        self.now += 1
+        return self.now
+
+    def __getattr__(self, name: str):  # pragma: no cover
+        raise HarnessModelError("clock stub touched through " + name)
+
+
+_serve_stream_rg = reglobalize(srv.RpcServer._serve_stream, time=_Clock())
+_CLOCK_STUB = "time.monotonic := concrete counter (access-log duration only)"
+
+
+def _serve_script(exchange: bool, t: int, cancel: bool, cancel_raises: bool, script: tuple, real: bool = False) -> bool:
     _HOLD["script"] = script
     _HOLD["i"] = 0
     _HOLD["calls"] = 0
@@ -319,7 +360,10 @@ def _serve_script(exchange: bool, t: int, cancel: bool, cancel_raises: bool, scr
     tr = _MemTransport(request)
     info = _SERVER._methods["exch" if exchange else "gen"]
     try:
-        _SERVER._serve_stream(tr, info, {})
+        if real:
+            _SERVER._serve_stream(tr, info, {})
+        else:
+            _serve_stream_rg(_SERVER, tr, info, {})
     except Exception:  # noqa: BLE001
         return False
     # the whole request stream was consumed (transport clean for the next call)
@@ -395,7 +439,7 @@ _SERVE_ENCODED = [srv.RpcServer._serve_stream, wire._flush_collector, wire._read
 
 
 def _replay_serve(args: dict) -> str | None:
-    ok = _serve_script(args["exchange"], args["t"], args["cancel"], args["cancel_raises"], (args["s0"], args["s1"], args["s2"], args["s3"]))
+    ok = _serve_script(args["exchange"], args["t"], args["cancel"], args["cancel_raises"], (args["s0"], args["s1"], args["s2"], args["s3"]), real=True)
     return None if ok else "socket stream loop: client-visible batches / process / on_cancel counts differ from the step script (no stubs involved)"
 
 
@@ -412,7 +456,7 @@ _KP = pick(4, 5)  # producer step kinds 0..4 (quick) / 0..5 incl. "nothing" (tho
 _NX = pick(3, 4)  # exchange: inputs / steps
 
 
-@cond(q=60, t=400, encoded=_SERVE_ENCODED, replay=_replay_serve_pr, signature=lambda a, c: "C10:serve_stream:producer-script-mismatch",
+@cond(q=60, t=400, encoded=_SERVE_ENCODED, stubs=[_CLOCK_STUB], replay=_replay_serve_pr, signature=lambda a, c: "C10:serve_stream:producer-script-mismatch",
       bound="producer step scripts of <= %d steps over {emit, emit+finish, finish, log+emit, raise%s}; 0..%d ticks then EOS or cancel; on_cancel raising or not" % (_NS, "" if _KP == 4 else ", nothing", _NS))
 def serve_stream_producer_script(t: int, cancel: bool, cancel_raises: bool, s0: int, s1: int, s2: int, s3: int) -> bool:
     """
@@ -423,7 +467,7 @@ def serve_stream_producer_script(t: int, cancel: bool, cancel_raises: bool, s0: 
     return _serve_script(False, t, cancel, cancel_raises, (s0, s1, s2, s3))
 
 
-@cond(q=60, t=400, encoded=_SERVE_ENCODED, replay=_replay_serve_ex, signature=lambda a, c: "C10:serve_stream:exchange-script-mismatch",
+@cond(q=60, t=400, encoded=_SERVE_ENCODED, stubs=[_CLOCK_STUB], replay=_replay_serve_ex, signature=lambda a, c: "C10:serve_stream:exchange-script-mismatch",
       bound="exchange response scripts of <= %d steps over {emit, log+emit, finish, raise, nothing}; 0..%d inputs then EOS or cancel; on_cancel raising or not" % (_NX, _NX))
 def serve_stream_exchange_script(t: int, cancel: bool, cancel_raises: bool, s0: int, s1: int, s2: int, s3: int) -> bool:
     """
@@ -433,3 +477,185 @@ def serve_stream_exchange_script(t: int, cancel: bool, cancel_raises: bool, s0: 
     post: _
     """
     return _serve_script(True, t, cancel, cancel_raises, (s0, s1, s2, s3))
+
+
+# ---------------------------------------------------------------------------
+# (c) HTTP: the cancel branch of _run_stream_exchange_sync
+# ---------------------------------------------------------------------------
+
+import contextlib  # noqa: E402
+from http import HTTPStatus  # noqa: E402
+
+from vgi_rpc.http._common import _RpcHttpError  # noqa: E402
+from vgi_rpc.http.server import _app_stream as aps  # noqa: E402
+from vgi_rpc.http.server._state_token import _ResolvedCall  # noqa: E402
+
+_H: dict = {"turns": [], "process": 0, "cancels": 0, "cancel_raises": False, "producer": False, "outcomes": []}
+
+
+class _HttpState:
+    """The state object the (stubbed) token recovery hands back; records every use."""
+
+    def process(self, *a, **k):  # type: ignore[no-untyped-def]
+        _H["process"] += 1
+
+    produce = exchange = process
+
+    def on_cancel(self, ctx) -> None:  # type: ignore[no-untyped-def]
+        _H["cancels"] += 1
+        if ctx is None or ctx.method_name != "m":
+            raise HarnessModelError("on_cancel called without a CallContext for the method")
+        if _H["cancel_raises"]:
+            raise RuntimeError("on_cancel boom")
+
+
+def _stub_recover(app, token, call_token, state_info, auth):  # type: ignore[no-untyped-def]
+    """Ideal-AEAD contract: the presented cursor token opens to the state the server minted."""
+    if token != b"TOKEN":
+        raise HarnessModelError("unexpected token")
+    rc = _ResolvedCall(None, _SCHEMA, _EMPTY_SCHEMA if _H["producer"] else _IN_SCHEMA, "sid")
+    return _HttpState(), rc, b"callid", b"plain-state"
+
+
+def _stub_producer_turn(app, **kw):  # type: ignore[no-untyped-def]
+    _H["turns"].append("producer")
+    return BytesIO(b"P")
+
+
+def _stub_exchange_turn(app, **kw):  # type: ignore[no-untyped-def]
+    _H["turns"].append("exchange")
+    return BytesIO(b"X")
+
+
+class _FakeSrv:
+    server_id = "srv"
+    protocol_name = "P"
+    _dispatch_hook = None
+    server_version = ""
+    protocol_hash = ""
+    transport_kind = None
+    implementation = None
+    ipc_validation = IpcValidation.FULL
+    external_config = None
+    methods: dict = {}
+
+
+class _FakeApp:
+    _server = _FakeSrv()
+
+    def __init__(self, known: bool) -> None:
+        self._state_types = {"m": object()} if known else {}
+
+
+_telemetry_gen = reglobalize(aps._dispatch_telemetry.__wrapped__, time=_Clock())
+
+
+@contextlib.contextmanager
+def _telemetry(app, **kw):  # type: ignore[no-untyped-def]
+    with contextlib.contextmanager(_telemetry_gen)(app, **kw) as outcome:
+        _H["outcomes"].append((kw.get("info"), outcome))
+        yield outcome
+
+
+_exchange_sync_rg = reglobalize(
+    aps._run_stream_exchange_sync,
+    _unpack_and_recover_state=_stub_recover,
+    _run_http_producer_turn=_stub_producer_turn,
+    _run_http_exchange_turn=_stub_exchange_turn,
+    _dispatch_telemetry=_telemetry,
+)
+
+
+def _http_request(producer: bool, cancel: bool, token: bool) -> bytes:
+    schema = _EMPTY_SCHEMA if producer else _IN_SCHEMA
+    kv: dict = {}
+    if token:
+        kv[md.STATE_KEY] = b"TOKEN"
+    if cancel:
+        kv[md.CANCEL_KEY] = b"1"
+    b = BytesIO()
+    with ipc.new_stream(b, schema) as w:
+        batch = empty_batch(schema) if (producer or cancel) else _IN_BATCHES[0]
+        if kv:
+            w.write_batch(batch, custom_metadata=pa.KeyValueMetadata(kv))
+        else:
+            w.write_batch(batch)
+    return b.getvalue()
+
+
+_HTTP_REQ = tuple(tuple(tuple(_http_request(p, c, t) for t in (False, True)) for c in (False, True)) for p in (False, True))
+
+
+def _replay_http_cancel(args: dict) -> str | None:
+    """Real HTTP stack (falcon test client + real tokens): start a stream, cancel it, count."""
+    from vgi_rpc.http import http_connect, make_sync_client
+
+    for k in ("calls", "cancels", "after_cancel", "i"):
+        _HOLD[k] = 0
+    _HOLD.update(script=(0, 0, 0, 0), cancel_raises=bool(args.get("cancel_raises")), inputs=[])
+    client = make_sync_client(_SERVER, token_key=b"k" * 32)
+    problems = []
+    with http_connect(_Proto, client=client) as proxy:
+        s = proxy.exch()  # (an HTTP producer runs to completion inside init; the exchange session is the cancellable one)
+        s.exchange(ty.AnnotatedBatch(batch=_IN_BATCHES[0]))
+        calls_before = _HOLD["calls"]
+        s.cancel()
+        if _HOLD["cancels"] != 1:
+            problems.append("on_cancel ran %d times" % _HOLD["cancels"])
+        if _HOLD["calls"] != calls_before or _HOLD["after_cancel"]:
+            problems.append("process ran on/after cancel")
+        try:
+            s.exchange(ty.AnnotatedBatch(batch=_IN_BATCHES[1]))
+            problems.append("session usable after cancel")
+        except (RpcError, StopIteration):
+            pass
+        if _HOLD["cancels"] != 1 or _HOLD["after_cancel"]:
+            problems.append("state used after cancel")
+    return "; ".join(problems) or None
+
+
+@cond(q=30, t=90, encoded=[aps._run_stream_exchange_sync, aps._dispatch_telemetry],
+      stubs=["_unpack_and_recover_state := ideal AEAD: the presented cursor token opens to the minted state", "_run_http_producer_turn/_run_http_exchange_turn := recording stubs (the only callers of state.process)", _CLOCK_STUB],
+      replay=_replay_http_cancel, signature=lambda a, c: "C10:http-cancel:state-processed-or-hook-count",
+      bound="cancel flag x producer/exchange x token present/absent x known/unknown state type x on_cancel raising or not (exhaustive); one real IPC request each")
+def http_cancel_branch(producer: bool, cancel: bool, token: bool, known: bool, cancel_raises: bool) -> bool:
+    """
+    post: _
+    """
+    _H["turns"] = []
+    _H["process"] = 0
+    _H["cancels"] = 0
+    _H["outcomes"] = []
+    _H["cancel_raises"] = cancel_raises
+    _H["producer"] = producer
+    req = _HTTP_REQ[1 if producer else 0][1 if cancel else 0][1 if token else 0]
+    resp = None
+    err = None
+    try:
+        resp = _exchange_sync_rg(_FakeApp(known), "m", BytesIO(req))
+    except _RpcHttpError as e:
+        err = e
+    except Exception:  # noqa: BLE001
+        return False
+    if _H["process"] != 0:
+        return False
+    if not known or not token:
+        # refused before any use of the state
+        want = HTTPStatus.INTERNAL_SERVER_ERROR if not known else HTTPStatus.BAD_REQUEST
+        return err is not None and err.status_code == want and _H["turns"] == [] and _H["cancels"] == 0
+    if err is not None:
+        return False
+    if cancel:
+        # never processed, hook exactly once, no error reported, empty stream with the output schema
+        if _H["turns"] != [] or _H["cancels"] != 1:
+            return False
+        if len(_H["outcomes"]) != 1:
+            return False
+        info, outcome = _H["outcomes"][0]
+        if outcome.status != "ok" or not outcome.cancelled or outcome.error_type != "":
+            return False
+        rd = ipc.open_stream(BytesIO(resp.getvalue()))
+        return rd.schema == _SCHEMA and rd.read_all().num_rows == 0 and resp.tell() == 0
+    if _H["cancels"] != 0:
+        return False
+    return _H["turns"] == (["producer"] if producer else ["exchange"])
